@@ -19,7 +19,9 @@ import (
 	sqlite3 "github.com/mattn/go-sqlite3"
 	"gorm.io/driver/sqlite"
 	"gorm.io/gorm"
+	"gorm.io/gorm/clause"
 	"gorm.io/gorm/logger"
+	"gorm.io/gorm/schema"
 
 	"verifharness/lib"
 	"verifharness/recdrv"
@@ -52,7 +54,8 @@ type Cfg struct {
 	Report  bool `json:"dialector_reports"` // save-point errors are returned by the dialector (as the MySQL/Postgres dialectors do); false = stock SQLite dialector, which drops them
 	// how the three flags are set: "" in gorm.Config at Open | "session": on a default-config handle by
 	// db.Session(&Session{PrepareStmt, DisableNestedTransaction, SkipDefaultTransaction}) | "both"
-	Via string `json:"via,omitempty"`
+	Via  string `json:"via,omitempty"`
+	NoSP bool   `json:"no_savepoints,omitempty"` // the dialector does not implement SavePoint / RollbackTo
 }
 
 type Input struct {
@@ -70,7 +73,7 @@ type Input struct {
 
 // Cls classifies an error or panic. K: nil | err | panic.
 // Code: >=0 the harness' own sentinel; -1 injected fault; -2 sql.ErrTxDone; -3 gorm.ErrInvalidTransaction;
-// -4 SQLite "no such savepoint"; -9 anything else. W: the error wraps another one (it is not the sentinel itself).
+// -4 SQLite "no such savepoint"; -5 gorm.ErrUnsupportedDriver; -9 anything else. W: the error wraps another one (it is not the sentinel itself).
 type Cls struct {
 	K    string `json:"k"`
 	Code int64  `json:"code,omitempty"`
@@ -125,6 +128,23 @@ func (d reporting) RollbackTo(tx *gorm.DB, name string) error {
 	return tx.Exec("ROLLBACK TO SAVEPOINT " + name).Error
 }
 
+// noSavePoints is the SQLite dialector seen only through gorm.Dialector: it does NOT implement
+// SavePointerDialectorInterface (a dialect without save points).
+type noSavePoints struct{ d gorm.Dialector }
+
+func (n noSavePoints) Name() string                        { return n.d.Name() }
+func (n noSavePoints) Initialize(db *gorm.DB) error         { return n.d.Initialize(db) }
+func (n noSavePoints) Migrator(db *gorm.DB) gorm.Migrator   { return n.d.Migrator(db) }
+func (n noSavePoints) DataTypeOf(f *schema.Field) string    { return n.d.DataTypeOf(f) }
+func (n noSavePoints) DefaultValueOf(f *schema.Field) clause.Expression {
+	return n.d.DefaultValueOf(f)
+}
+func (n noSavePoints) BindVarTo(w clause.Writer, stmt *gorm.Statement, v interface{}) {
+	n.d.BindVarTo(w, stmt, v)
+}
+func (n noSavePoints) QuoteTo(w clause.Writer, s string)             { n.d.QuoteTo(w, s) }
+func (n noSavePoints) Explain(sql string, vars ...interface{}) string { return n.d.Explain(sql, vars...) }
+
 type env struct {
 	db    *gorm.DB
 	rec   *recdrv.Recorder
@@ -156,7 +176,7 @@ func getEnv(c Cfg) *env {
 		return e
 	}
 	envGen++
-	name := fmt.Sprintf("db_p%v_n%v_s%v_r%v_%s_%d.sqlite", c.Prep, c.NoNest, c.SkipDef, c.Report, c.Via, envGen)
+	name := fmt.Sprintf("db_p%v_n%v_s%v_r%v_%s_%v_%d.sqlite", c.Prep, c.NoNest, c.SkipDef, c.Report, c.Via, c.NoSP, envGen)
 	path := filepath.Join(workDir, name)
 	os.Remove(path)
 	dsn := "file:" + path + "?_busy_timeout=300&_synchronous=0"
@@ -164,6 +184,9 @@ func getEnv(c Cfg) *env {
 	var dial gorm.Dialector = sqlite.Dialector{Conn: sqlDB}
 	if c.Report {
 		dial = reporting{sqlite.Dialector{Conn: sqlDB}}
+	}
+	if c.NoSP {
+		dial = noSavePoints{sqlite.Dialector{Conn: sqlDB}}
 	}
 	gc := &gorm.Config{Logger: logger.Discard}
 	if c.Via != "session" {
@@ -208,6 +231,8 @@ func classify(err error) Cls {
 		c.Code = -3
 	case strings.Contains(err.Error(), "no such savepoint"):
 		c.Code = -4
+	case errors.Is(err, gorm.ErrUnsupportedDriver):
+		c.Code = -5
 	}
 	return c
 }
@@ -514,6 +539,8 @@ func codeTerm(c int64) string {
 		return "EInvalidTx"
 	case -4:
 		return "ENoSp"
+	case -5:
+		return "EUnsupported"
 	case -9:
 		return "EOther"
 	}
@@ -576,7 +603,7 @@ func term(in Input, o Observed) string {
 	stray := lib.ListOf(in.Stray, func(s string) string { return lib.Bool(s == "commit") })
 	return lib.App("mk_case",
 		lib.Bool(in.Top == "manual"), progTerm(&in.Body), extra, stray,
-		lib.App("mk_cfg", lib.Bool(in.Cfg.Prep), lib.Bool(in.Cfg.NoNest), lib.Bool(in.Cfg.SkipDef), lib.Bool(in.Cfg.Report)),
+		lib.App("mk_cfg", lib.Bool(in.Cfg.Prep), lib.Bool(in.Cfg.NoNest), lib.Bool(in.Cfg.SkipDef), lib.Bool(in.Cfg.Report), lib.Bool(in.Cfg.NoSP)),
 		fault,
 		lib.App("OC", lib.Bool(o.Entered), lib.ListOf(o.Log, obsTerm), clsTerm(o.Exit), clsTerm(o.Ret)),
 		lib.ListOf(o.Extra, clsTerm), lib.ListOf(o.Stray, clsTerm),
@@ -726,7 +753,7 @@ func shapeBlk(b *Blk, sb *strings.Builder) {
 
 func shape(in Input, o Observed) string {
 	var sb strings.Builder
-	fmt.Fprintf(&sb, "%s|p%v n%v s%v r%v %s o%v %v|", in.Top, in.Cfg.Prep, in.Cfg.NoNest, in.Cfg.SkipDef, in.Cfg.Report, in.Cfg.Via, in.Opts, in.Stray)
+	fmt.Fprintf(&sb, "%s|p%v n%v s%v r%v %s o%v %v|", in.Top, in.Cfg.Prep, in.Cfg.NoNest, in.Cfg.SkipDef, in.Cfg.Report, in.Cfg.Via+fmt.Sprint(in.Cfg.NoSP), in.Opts, in.Stray)
 	shapeBlk(&in.Body, &sb)
 	fk := "none"
 	if in.Fault >= 0 && in.Fault < len(o.Ops) {
@@ -866,6 +893,7 @@ func main() {
 		out.Count("result", o.Ret.K)
 		out.Count("config", fmt.Sprintf("prep=%v nonest=%v skipdef=%v report=%v", in.Cfg.Prep, in.Cfg.NoNest, in.Cfg.SkipDef, in.Cfg.Report))
 		out.Count("config_via", "via="+in.Cfg.Via)
+		out.Count("savepoints", fmt.Sprint(!in.Cfg.NoSP))
 		out.Count("durable", fmt.Sprint(len(o.Table)))
 		out.Count("driver_ops", fmt.Sprint(len(o.Ops)))
 		for _, n := range o.Notes {
@@ -931,6 +959,9 @@ func main() {
 					c.Report = false
 				}
 				c.Via = []string{"", "session", "both"}[(ti/3+ci)%3]
+				if (ti+ci)%16 == 8 {
+					c.NoSP, c.Report = true, true
+				}
 				if (ti+ci)%4 != 0 && ti >= 12 { // every tree under 2 configurations, the smallest under all
 					continue
 				}
@@ -970,6 +1001,9 @@ func main() {
 		in.Cfg = cfgs[r.Intn(8)]
 		in.Cfg.Report = r.Chance(3, 4)
 		in.Cfg.Via = lib.Pick(r, []string{"", "", "session", "both"})
+		if r.Chance(1, 10) {
+			in.Cfg.NoSP, in.Cfg.Report = true, true
+		}
 		in.Opts = r.Chance(1, 4)
 		if r.Chance(1, 6) {
 			for k := r.Range(1, 2); k > 0; k-- {
